@@ -97,7 +97,7 @@ class ModelScripts:
         return lines
 
 
-def random_history(rng, kind, nkeys, nvals, nops, p_fail=0.05, with_bad=False, two=True, init_pairs=0):
+def random_history(rng, kind, nkeys, nvals, nops, p_fail=0.05, with_bad=False, two=True, init_pairs=0, alias=True):
     """A random in-contract history (plus absent-key get/rem, which the properties define) over up to 3 containers."""
     lines = ["reset"]
     kinds = {}
@@ -115,7 +115,11 @@ def random_history(rng, kind, nkeys, nvals, nops, p_fail=0.05, with_bad=False, t
         o = rng.choice(sorted(kinds))
         r = rng.random()
         k = rng.choice(hot) if rng.random() < 0.7 else rng.randint(1, nkeys)
-        if r < 0.45:
+        if r < 0.06 and alias and present[o]:
+            ko = rng.choice(sorted(present[o]))
+            lines.append("setalias %d %d %d %d" % (o, k, ko, rng.randint(1, nvals)))      # arguments taken from the container itself
+            present[o].add(k)
+        elif r < 0.45:
             lines.append("set %d %d %d" % (o, k, rng.randint(1, nvals)))
             present[o].add(k)
         elif r < 0.70:
